@@ -928,6 +928,8 @@ class Interp:
             if isinstance(recv, (str, tuple)) and not (isinstance(recv, tuple) and recv and recv[0] in ('ctor', 'struct', 'range', 'closure', 'iter')):
                 if name in ('iter', 'into_iter', 'iter_mut', 'iter_mut2', 'drain') and not args and isinstance(recv, tuple):
                     return IterObj(recv)
+                if name in ('values', 'values_mut', 'into_values', 'keys', 'into_keys') and not args and isinstance(recv, tuple) and all(isinstance(x, tuple) and len(x) == 2 for x in recv):
+                    return IterObj(tuple(x[0 if 'keys' in name else 1] for x in recv))          # a map modelled as a tuple of (key, value) pairs
                 if name in ('bytes', 'as_bytes') and not args and isinstance(recv, str):
                     b = tuple(recv.encode('utf-8'))
                     return IterObj(b, 'bytes') if name == 'bytes' else b
